@@ -21,7 +21,8 @@ def run(tier, seed):
     res.assumptions = ["proof covers one border node; the hand-over between nodes under splits is explored, not proved",
                        "sequentially consistent interleavings only"]
     return conc.run_conc_property(res, "c06", WANT, ["single", "full", "two", "interior", "sublayer", "empty"],
-                                  ("put", "uput"), True, 150, 1500, tie_shapes=())
+                                  ("put", "uput"), True, 150, 1500, tie_shapes=(),
+                                  catalogue_filter=lambda sc: any(o.startswith("scan") or "getmiss" in sc.name for ops in sc.threads for o in ops))
 
 
 def replay(path, tier, seed):
